@@ -133,7 +133,7 @@ impl ModeOracle {
         let prop = self.property;
         self.index.observe(rec, cx);
         match rec {
-            Rec::Call { op: Op::Create { ep }, .. } => {
+            Rec::Call { op: Op::Create { ep }, skipped: false, .. } => {
                 let ep = *ep;
                 self.conns.retain(|(a, b), _| *a != ep && *b != ep);
             }
@@ -365,7 +365,7 @@ impl Oracle for SenderLimitOracle {
         let prop = self.property;
         self.index.observe(rec, cx);
         match rec {
-            Rec::Call { op: Op::Create { ep }, .. } => {
+            Rec::Call { op: Op::Create { ep }, skipped: false, .. } => {
                 let ep = *ep;
                 self.conns.retain(|(a, b), _| *a != ep && *b != ep);
             }
@@ -609,7 +609,7 @@ impl Oracle for RateOracle {
         let prop = self.property;
         self.index.observe(rec, cx);
         match rec {
-            Rec::Call { op: Op::Create { ep }, .. } => {
+            Rec::Call { op: Op::Create { ep }, skipped: false, .. } => {
                 let ep = *ep;
                 self.conns.retain(|(a, b), _| *a != ep && *b != ep);
                 self.steps.remove(&ep);
